@@ -55,6 +55,35 @@ theorem Forall₂.right_mem {α β : Type} {P : α → β → Prop} : ∀ {l : L
     · obtain ⟨a, ha, h⟩ := Forall₂.right_mem t b hb
       exact ⟨a, List.mem_cons_of_mem _ ha, h⟩
 
+theorem Forall₂.of_zip {α β : Type} {P : α → β → Prop} : ∀ (l : List α) (m : List β), l.length = m.length →
+    (∀ x ∈ l.zip m, P x.1 x.2) → Forall₂ P l m
+  | [], [], _, _ => .nil
+  | [], _ :: _, h, _ => by simp at h
+  | _ :: _, [], h, _ => by simp at h
+  | a :: as, b :: bs, h, hz =>
+    .cons (hz (a, b) (by simp)) (Forall₂.of_zip as bs (by simpa using h) (fun x hx => hz x (by simp [hx])))
+
+theorem mem_insertUniq (a : Nat) : ∀ (l : List Nat) (x : Nat), x ∈ insertUniq a l ↔ x = a ∨ x ∈ l
+  | [], x => by simp [insertUniq]
+  | z :: zs, x => by
+    simp only [insertUniq]
+    split
+    · rename_i h; subst h
+      simp only [List.mem_cons]
+      constructor
+      · intro h; exact Or.inr h
+      · rintro (h | h); exact Or.inl h; exact h
+    · split
+      · simp [List.mem_cons]
+      · simp only [List.mem_cons, mem_insertUniq a zs x]
+        constructor
+        · rintro (h | h | h); exact Or.inr (Or.inl h); exact Or.inl h; exact Or.inr (Or.inr h)
+        · rintro (h | h | h); exact Or.inr (Or.inl h); exact Or.inl h; exact Or.inr (Or.inr h)
+
+theorem mem_sortDedup : ∀ (l : List Nat) (x : Nat), x ∈ sortDedup l ↔ x ∈ l
+  | [], x => by simp [sortDedup]
+  | y :: ys, x => by simp only [sortDedup, mem_insertUniq, mem_sortDedup ys x, List.mem_cons]
+
 theorem mem_dedup {α : Type} [DecidableEq α] {x : α} : ∀ {l : List α}, x ∈ dedup l ↔ x ∈ l
   | [] => by simp [dedup]
   | y :: ys => by
@@ -115,5 +144,9 @@ theorem mem_candidates (db : DB R) (q : Query) (c : Candidate) : c ∈ candidate
   constructor
   · rintro ⟨r, ⟨hr, ha⟩, h⟩; exact ⟨r, hr, ha, h⟩
   · rintro ⟨r, hr, ha, h⟩; exact ⟨r, ⟨hr, ha⟩, h⟩
+
+/-- the property is decidable for a given combination: by enumeration -/
+instance (db : DB R) (q : Query) (c : Candidate) : Decidable (IsCandidate db q c) :=
+  decidable_of_iff _ (mem_candidates db q c)
 
 end Placement.Spec
